@@ -406,6 +406,81 @@ MUTANTS = [
       "        self.keys.append(key)\n        self.dists.append(dist)\n",
       "        self.keys.append(key)\n        if not isinstance(dist, str):\n"
       "            self.dists.append(dist)\n", 'C15'),
+    # ---------------- rules added after the seeded rounds
+    M('fallible-after-append', PR, "        self.keys.append(key)\n        self.dists.append(dist)\n",
+      "        self.keys.append(key)\n        self.dists.append(dist if not isinstance(dist, tuple)"
+      " else uniform(loc=dist[0], scale=dist[1]))\n", 'C15'),
+    M('memoised-dimensionality', PR,
+      "        return sum(not isinstance(dist, (numbers.Number, str)) for dist in\n"
+      "                   self.dists)",
+      "        if not hasattr(self, '_n'):\n"
+      "            self._n = sum(not isinstance(dist, (numbers.Number, str)) for dist in\n"
+      "                          self.dists)\n        return self._n", 'C15'),
+    M('presence-predicate-differs', B, "        if np.any(bound.dim_cube):\n"
+      "            bound.cube = UnitCube.read(group['cube'], rng=rng)",
+      "        if np.all(bound.dim_cube):\n"
+      "            bound.cube = UnitCube.read(group['cube'], rng=rng)", 'C09'),
+    M('sweep-filters-attributes', NN, "                if key in ['coefs_', 'intercepts_']:",
+      "                if key.startswith('_') or key in ['coefs_', 'intercepts_']:", 'C09'),
+    M('update-conditional', U, "        group.attrs['n_sample'] = self.n_sample\n"
+      "        group.attrs['n_reject'] = self.n_reject\n        group['points'].resize",
+      "        group.attrs['n_sample'] = self.n_sample\n"
+      "        group.attrs['n_reject'] = self.n_reject\n        if len(self.points) == 0:\n"
+      "            return\n        group['points'].resize", 'C09 C05'),
+    M('restore-by-group-iteration', S,
+      "                for i in range(1, len(self.shell_n)):\n"
+      "                    self.bounds.append(NautilusBound.read(\n"
+      "                        fstream['bound_{}'.format(i)], rng=self.rng))\n",
+      "                for key in fstream:\n"
+      "                    if key.startswith('bound_') and key != 'bound_0':\n"
+      "                        self.bounds.append(NautilusBound.read(\n"
+      "                            fstream[key], rng=self.rng))\n", 'C05'),
+    M('log-of-determinant', B, "np.linalg.slogdet(self.B)[1]", "np.log(np.linalg.det(self.B))",
+      'C08'),
+    M('log_l-clipped', S, "        self.n_like += len(log_l)\n",
+      "        log_l = np.maximum(log_l, -1e300)\n        self.n_like += len(log_l)\n", 'C03'),
+    M('statistics-of-other-slot', S, "self.shell_log_v[index] = (self.bounds[index].log_v +",
+      "self.shell_log_v[index] = (self.bounds[-1].log_v +", 'C02'),
+    M('association-first-bound', S,
+      "for i, bound in reversed(list(enumerate(self.bounds[:n_max]))):",
+      "for i, bound in enumerate(self.bounds[:n_max]):", 'C01'),
+    M('rounding-from-copied-generator', S,
+      "                self.rng.random(len(repeats)) < repeats - np.floor(repeats)",
+      "                np.random.default_rng(0).random(len(repeats)) < repeats - "
+      "np.floor(repeats)", 'C14'),
+    M('run-overrides-setter', S, "        t_start = time()\n",
+      "        t_start = time()\n        if self.explored:\n"
+      "            self.discard_exploration = discard_exploration\n", 'C12'),
+    M('generator-rebound-after-read', S,
+      "                        fstream['bound_{}'.format(i)], rng=self.rng))\n",
+      "                        fstream['bound_{}'.format(i)], rng=self.rng))\n"
+      "                self.rng = np.random.default_rng(seed)\n", 'C11 C05'),
+    M('setter-skips-unchanged', S,
+      "        self._discard_exploration = discard_exploration\n        for index",
+      "        if discard_exploration == self._discard_exploration:\n            return\n"
+      "        self._discard_exploration = discard_exploration\n        for index", 'C02 C12'),
+    M('all-underfilled-shells-at-once', S,
+      "                shell = np.flatnonzero(self.shell_n < n_shell)[0]\n"
+      "                self.add_samples(shell, verbose=verbose)\n"
+      "                if self.filepath is not None:\n"
+      "                    self.write_shell_update(self.filepath, shell)\n",
+      "                for shell in np.flatnonzero(self.shell_n < n_shell):\n"
+      "                    self.add_samples(shell, verbose=verbose)\n"
+      "                    if self.filepath is not None:\n"
+      "                        self.write_shell_update(self.filepath, shell)\n", 'C10'),
+    M('split-loop-stops-early', S,
+      "                in_bound = self.bounds[-1].contains(self.points[shell])\n",
+      "                in_bound = self.bounds[-1].contains(self.points[shell])\n"
+      "                if not np.any(in_bound):\n                    break\n", 'C01'),
+    M('mixture-cube-unseeded', B,
+      "bound.cube = UnitCube.compute(np.sum(bound.dim_cube), rng=rng)",
+      "bound.cube = UnitCube.compute(np.sum(bound.dim_cube))", 'C11 C05'),
+    M('neural-returns-score-test', NE,
+      "        return in_bound\n\n    def write",
+      "        return in_bound | (np.zeros(len(points)) > self.score_predict_min)\n\n"
+      "    def write", 'C07'),
+    M('deterministic-allocation', U, "n_per_bound = self.rng.multinomial(n_sample, p)",
+      "n_per_bound = np.rint(n_sample * p).astype(int)", 'C08'),
 ]
 MUTANTS = [m for m in MUTANTS if m['props']]
 
